@@ -20,6 +20,68 @@ CLAIMS = {
         '(Protocol <= 0 counts as unset in the code).',
         _TECH, '5 C31',
     ),
+    'C09': (
+        'exploration',
+        'TLC enumerates a structured shape space per network entry point (spec/MsgShapes.tla: NotifyMsg for every message type with up to '
+        'W deviating fields x {absent,nil,empty,one byte,wrong msgpack type,oversized,lying length header}, queries with internal '
+        '_serf_* names x payload classes x filter classes x flags x node configuration (keyring, coordinates), relay envelopes, '
+        'query responses to a running query, MergeRemoteState, NotifyPingComplete, NotifyJoin/Update/Leave/Merge/Alive/Conflict '
+        'metadata, and every proper prefix of every valid encoding); each shape is concretized and fed to a real quiet node in a '
+        'child process; monitors: the process and the calling goroutine survive, Members() answers and lists the node alive, a user '
+        'event issued afterwards is delivered.',
+        'Exploration of structured shapes, one concrete byte string per shape: arbitrary byte strings inside the msgpack decoder are '
+        'not enumerated (DESIGN.md section 7). Trusts the hand-written msgpack writer of the harness and the attribution of process '
+        'deaths by re-running suspects alone.',
+        _TECH, '5 C09',
+    ),
+    'C32': (
+        'exploration',
+        'TLC checks the abstract tag codec (spec/TagCodec.tla: role-only below protocol 3, magic byte, map otherwise) against the '
+        'property for all tag maps over a 3-symbol alphabet containing the magic byte 0xFF, NUL and the empty string, protocols 2..5, '
+        'and enumerates them; each is encoded by a real node (Config.Tags or SetTags -> NodeMeta(512)) and decoded by a second real '
+        'node (NotifyJoin/NotifyUpdate -> Members()); tag maps of encoded length 8..600 bytes go through Create/SetTags (accepted iff '
+        '<= 512); user events, queries and replies cross two real nodes, the reply additionally through a relay node with the bytes '
+        'captured on the transport; relay envelopes through NotifyMsg must be forwarded byte for byte.',
+        'Codec fidelity over arbitrary field values is sampled through a small alphabet, not proved; join/leave/push-pull kinds cross the '
+        'real codec in the membership checks, not here. The case analysis (protocol gate, magic byte, size gate, relay) is modelled.',
+        _TECH, '5 C32',
+    ),
+    'C21': (
+        'exploration',
+        'TLC checks symmetry and non-negativity of the documented formula (spec/RTT.tla) and enumerates an exact-arithmetic sub-lattice '
+        '(integer components on Pythagorean directions in dimensions 1-3, integer heights, adjustment pairs placed around the sign '
+        'change of the adjusted distance, scaled by a power of two) on which IEEE arithmetic is exact: the real DistanceTo must equal '
+        'the integer model exactly in both directions; dimension mismatches must raise DimensionalityConflictError. Seeded float classes '
+        '(magnitudes 0..1e4 s, adjustment classes none/small/cancelling/large/huge) are judged for non-negativity and symmetry only.',
+        'Decides the case analysis (adjustment applied only when the adjusted value stays positive, both heights, both adjustments, '
+        'dimension error); does NOT decide "up to floating-point rounding" for arbitrary floats.',
+        _TECH, '5 C21',
+    ),
+    'C20': (
+        'exploration',
+        'TLC checks the protocol skeleton (spec/Coord.tla: accept iff the reported coordinate is finite with the right dimension and '
+        '0 <= rtt <= 10 s; a rejected observation changes neither the coordinate nor the cache; a peer is cached only on accept) for all '
+        'observation sequences up to depth 4 (thorough 5) over 7 coordinate classes x 4 rtt classes x 2 peers; TLC-simulated sequences '
+        'are run on a real quiet node through pingDelegate.NotifyPingComplete with seeded adversarial floats per class; after every step '
+        'the real coordinate (finite, dimensionality, height >= min, 0 <= error <= max while peers report non-negative errors), the '
+        'cache and the rejected-counter are observed and validated by TLC.',
+        'The floating-point clauses are monitors sampled on the executed histories, not proved (DESIGN.md section 7).',
+        'TLA+ spec + TLC exhaustive check of the skeleton; TLC-simulated observation sequences replayed on a real node; TLC trace '
+        'validation with property monitors on the observed coordinate',
+        '5 C20',
+    ),
+    'C27': (
+        'exploration',
+        'TLC checks the handler contract definition (spec/HandlerContract.tla: filter grammar -> match predicate, sanitized SERF_TAG_* '
+        'names, stdin escaping, payload newline rule, reply rule exit 0 and output and last 8 KB fits the limit) against its own laws and '
+        'enumerates filter specs x events, tag maps/names/Lamport times, member lists with tabs/newlines/backslashes/=/, in names, roles '
+        'and tags, payloads, and reply size/exit/stream/limit classes; each input runs the real ScriptEventHandler with /bin/sh scripts '
+        'that dump /proc/$$/environ and stdin; queries are real *serf.Query values of a real node and the reply is captured on its '
+        'transport; TLC validates every observation.',
+        'Runs real shells over a small alphabet (no NUL bytes); reply sizes stay clear of the exact limit boundary; tag order within the '
+        'tags field is unspecified.',
+        _TECH, '5 C27',
+    ),
 }
 import json
 import os
